@@ -343,6 +343,13 @@ func runC09(tier string, seed uint64) {
 					s.Put(singleBucketName, "kv", []byte("born versioned, 2"), nil)
 					s.Put(singleBucketName, "marked", []byte("to be marked"), nil)
 					s.Delete(singleBucketName, "marked")
+					// delete markers inside groups of keys: between live keys, last of its group, a group of its own
+					for _, gk := range []string{"g/a", "g/b", "g/c", "g2/a", "g2/z", "h/only"} {
+						s.Put(singleBucketName, gk, []byte("grouped "+gk), nil)
+					}
+					for _, gk := range []string{"g/b", "g2/z", "h/only"} {
+						s.Delete(singleBucketName, gk)
+					}
 					f.vids = append(f.vids, s.vids...)
 				}
 				if id := s.Initiate(singleBucketName, "mp", nil); id != "" {
@@ -412,6 +419,14 @@ func runC09(tier string, seed uint64) {
 				for _, pn := range []string{"-1", "-9223372036854775808", "0", "2", "99999"} {
 					corpus = append(corpus, Req{Method: "POST", Path: "/" + singleBucketName + "/mp?uploadId=" + up,
 						Body: []byte("<CompleteMultipartUpload><Part><PartNumber>" + pn + "</PartNumber><ETag>x</ETag></Part></CompleteMultipartUpload>")})
+				}
+			}
+			// object listings page by page over groups that hold delete markers: every small page size x
+			// prefix / delimiter / marker, V1 and V2
+			for n := 1; n <= 6; n++ {
+				for _, extra := range []string{"&delimiter=%2F", "&delimiter=%2F&prefix=g", "&delimiter=%2F&prefix=g%2F", "&delimiter=%2F&marker=g%2Fa", "&delimiter=%2F&marker=d%2Fe",
+					"&list-type=2&delimiter=%2F", "&list-type=2&delimiter=%2F&start-after=d%2Fe", "&list-type=2&delimiter=%2F&prefix=g2", "&prefix=g", "&delimiter=a", "&list-type=2&delimiter=g"} {
+					corpus = append(corpus, Req{Method: "GET", Path: "/" + singleBucketName + "?max-keys=" + strconv.Itoa(n) + extra})
 				}
 			}
 			for n := 0; n <= 5; n++ {
